@@ -311,3 +311,87 @@ contract(FS, 'SynthDef._topological_sort', props=('C02',), params={'self': 'self
          class_modules={'SynthDef': FS, 'Popped': F}, native=False,
          note='termination is not claimed here (every pass pops one unit; finiteness of the releases is the bounded '
               'driver\'s: a cyclic graph leaves units unarranged, which C01/C02 drivers report)')
+
+
+# ---- SynthDef._init_topo_sort: clean sets, edges, initial availability ---------------------------------------
+# the available stack starts empty; EVERY unit first gets fresh empty antecedent/descendant sets (all of them,
+# before any edge is entered - an edge entered earlier would otherwise be wiped by a later reset); then every
+# unit enters its edges; then every unit, last to first, is offered to the available stack.
+def sd_children(eng, name):
+    n = z3.Int('children.len')
+
+    def get(eng_, i, st_):
+        tag = str(z3.simplify(i)).replace(' ', '')
+        return V('ref', cls='Child', oid='child[%s]' % tag, extra={'tag': tag})
+    return V('seq', extra={'len': n, 'facts': [n >= 0], 'get': get})
+
+
+def sd_getattr(eng, obj, name, st, node):
+    if obj.k == 'ref' and obj.cls == 'Child' and name in ('_init_topo_sort', '_make_available'):
+        def call(eng, args, kwargs, st, node, _o=obj, _n=name):
+            st.trace.append(('child', _n, _o.oid))
+            return [(st, NONE)]
+        return [(st, V('func', py=('spec', call)))]
+    return None
+
+
+def sd_setattr(eng, obj, name, v, st, node):
+    if obj.k == 'ref' and obj.cls == 'Child' and name in ('_antecedents', '_descendants'):
+        fresh_empty = v.k == 'obj' and str(v.oid).startswith('new!set')
+        st.trace.append(('reset', obj.oid, name, fresh_empty))
+        return [('next', st)]
+    if obj.k == 'ref' and obj.oid == 'self' and name == '_available':
+        st.trace.append(('available-reset', v.k == 'list' and v.items == []))
+        return None
+    return None
+
+
+def sd_builtin(eng, name, args, kwargs, st, node):
+    if name == 'set' and not args:
+        return [(st, V('obj', oid='new!set!%d' % next(eng.counter)))]
+    return None
+
+
+def child_tag(c, i):
+    return 'child[%s]' % str(z3.simplify(i)).replace(' ', '')
+
+
+def phase_inv(ordinal, what):
+    def inv(c, L):
+        ev = since(c.trace, ordinal)
+        if not ev:
+            return z3.BoolVal(True)
+        ev = [e for e in ev if e[0] in ('reset', 'child', 'available-reset')]
+        n = z3.Int('children.len')
+        idx = (L.i - 1) if ordinal != 2 else (n - 1 - (L.i - 1))               # the third loop runs last to first
+        want = child_tag(c, idx)
+        if what == 'reset':
+            ok = (len(ev) == 2 and all(e[0] == 'reset' and e[1] == want and e[3] for e in ev)
+                  and {e[2] for e in ev} == {'_antecedents', '_descendants'})
+        else:
+            ok = len(ev) == 1 and ev[0][0] == 'child' and ev[0][1] == what and ev[0][2] == want
+        return z3.BoolVal(bool(ok))
+    return inv
+
+
+def sd_init_post(c):
+    t = [e for e in c.trace if e[0] in ('reset', 'child', 'available-reset', 'loop-head')]
+    heads = [(i, e[1]) for i, e in enumerate(t) if e[0] == 'loop-head']
+    # phases in order: all resets (loop 0) before any edge (loop 1) before any availability (loop 2)
+    order = [o for _, o in heads]
+    first = {o: min(i for i, oo in heads if oo == o) for o in set(order)}
+    ok = (set(order) == {0, 1, 2} and first[0] < first[1] < first[2]
+          and t[0][0] == 'available-reset' and t[0][1]
+          and not [e for e in t[:first[0]] if e[0] in ('reset', 'child')])
+    return z3.BoolVal(bool(ok))
+
+
+contract(FS, 'SynthDef._init_topo_sort', props=('C02',), params={'self': 'self'},
+         ensures=[('empty-stack;then-all-sets-reset;then-all-edges;then-availability-last-to-first', sd_init_post)],
+         loops={0: Loop(inv=phase_inv(0, 'reset'), kinds={'ugen': (lambda eng, n: V('obj', oid='havoc'))}),
+                1: Loop(inv=phase_inv(1, '_init_topo_sort'), kinds={'ugen': (lambda eng, n: V('obj', oid='havoc'))}),
+                2: Loop(inv=phase_inv(2, '_make_available'), kinds={'ugen': (lambda eng, n: V('obj', oid='havoc'))})},
+         modifies=[('self', '_available')],
+         fields={'SynthDef': {'_children': sd_children, '_available': 'obj'}, 'Child': {}},
+         hooks={'getattr': sd_getattr, 'setattr': sd_setattr, 'builtin_first': sd_builtin},
+         class_modules={'SynthDef': FS, 'Child': F}, native=False)
